@@ -114,7 +114,7 @@ ex_mine(uint64_t slice)
 	return (int)(slice % (uint64_t)ex.nworkers) == ex.worker;
 }
 
-/* deadline: cheap check, consults the clock every 4096 calls */
+/* deadline: cheap check */
 static inline int
 ex_expired(void)
 {
@@ -122,7 +122,8 @@ ex_expired(void)
 	if (ex.expired) {
 		return 1;
 	}
-	if ((++cnt & 0xfffU) == 0U && ex.deadline > 0 && ex_now() > ex.deadline) {
+	/* the first 64 calls always look (loops with few, long iterations), then every 64th */
+	if ((++cnt <= 64U || (cnt & 0x3fU) == 0U) && ex.deadline > 0 && ex_now() > ex.deadline) {
 		ex.expired = 1;
 	}
 	return ex.expired;
